@@ -189,6 +189,15 @@ def oracle(ctx, deep=False):
             ctx.violations.append({"what": f.split("[")[0].split(" = ")[0][:60], "detail": f, "input": case})
         if len(ctx.violations) > 20:
             break
+    # large tables (the sizes above are small so that exact rationals stay cheap): every in-memory backend at 3e5 rows
+    for kind in ("pandas", "polars", "polars-lazy", "pyarrow"):
+        n = ctx.n(300_000, 1_000_000)
+        seed = ctx.rng.randint(0, 10**6)
+        for f in large_table_probe(kind, n, seed):
+            ctx.violations.append({"what": "large table: variance / covariance wrong", "detail": f,
+                                   "input": {"large_table": True, "backend": kind, "rows": n, "seed": seed}})
+        ctx.evaluations += 1
+        ctx.count("oracle:large-table:" + kind)
     # alias collision: cov pairs ("a", "b__c") and ("a__b", "c") share the alias _cov__a__b__c
     import tea_tasting.aggr as A
     import pyarrow as pa
@@ -205,7 +214,35 @@ def oracle(ctx, deep=False):
                                    "input": {"alias_collision": True}})
 
 
+def large_table_probe(kind, n, seed, tries=3):
+    """Variance of a large table per variant against numpy's two-pass variance (float64; tolerance far above rounding)."""
+    import numpy as np
+    import tea_tasting.aggr as A
+    rng = np.random.default_rng(seed)
+    v = rng.integers(0, 2, n)
+    x = rng.normal(0, 1, n) + v
+    y = rng.normal(3, 2, n) + x
+    fails = []
+    for _ in range(tries):        # the failure of the pyarrow path depends on thread scheduling
+        try:
+            tab = B.make_table(kind, {"variant": v.tolist(), "x": x.tolist(), "y": y.tolist()})
+            ag = A.read_aggregates(tab, "variant", has_count=True, mean_cols=("x", "y"), var_cols=("x", "y"), cov_cols=(("x", "y"),))
+        finally:
+            B.cleanup()
+        for g in (0, 1):
+            want_v = float(np.var(x[v == g], ddof=1))
+            want_c = float(np.cov(x[v == g], y[v == g])[0, 1])
+            if abs(ag[g].var("x") - want_v) > 1e-6 * want_v or abs(ag[g].cov("x", "y") - want_c) > 1e-6 * abs(want_c):
+                fails.append(f"{kind}, {n} rows, variant {g}: var(x) = {ag[g].var('x')} (numpy {want_v}), cov(x,y) = {ag[g].cov('x', 'y')} (numpy {want_c})")
+        if fails:
+            break
+    return fails
+
+
 def replay(ctx, rp):
+    if rp["input"].get("large_table"):
+        fails = large_table_probe(rp["input"]["backend"], rp["input"]["rows"], rp["input"]["seed"])
+        return {"fails": bool(fails), "failures": fails}
     if rp["input"].get("alias_collision"):
         return {"fails": True, "note": "re-run ./check C01"}
     fails = check_backend(rp["input"])
@@ -213,10 +250,15 @@ def replay(ctx, rp):
 
 
 def matches_finding(v, f):
+    if f.get("predicate") == "pyarrow_large_table":
+        i = v.get("input", {})
+        return bool(i.get("large_table")) and i.get("backend") == "pyarrow" and i.get("rows", 0) >= 100_000
     return f.get("predicate") == "alias_collision" and v["what"] == "alias collision"
 
 
 def finding_still_fails(ctx, f):
+    if f.get("predicate") == "pyarrow_large_table":
+        return bool(large_table_probe("pyarrow", 400_000, 7, tries=4))
     c = H.Ctx("C01", "quick", 0)
     import tea_tasting.aggr as A
     import pyarrow as pa
